@@ -1,0 +1,28 @@
+//go:build verif
+
+// Contracts for the verif framework (/verif). Comment-only: this file
+// declares nothing and is compiled only with -tags=verif.
+
+package main
+
+// The standalone command (C01): the failure flag of the run is sticky. Run may set it
+// but never clears it, so a failing script followed by a passing one still ends in a
+// non-zero exit status.  (How a failure reaches Run is panic/recover and is outside the
+// model: only non-panicking executions are explored.)
+//@ ghost var gABool (Array Int Bool)
+//@ extern (*sync/atomic.Bool).Store(b, val)
+//@   modifies gABool
+//@   ensures gABool[baseOf(b)] == val
+//@   ensures forall x int {gABool[x]} :: x != baseOf(b) ==> gABool[x] == old(gABool)[x]
+//@ extern (*sync/atomic.Bool).Load(b) (r)
+//@   pure
+//@   ensures r == gABool[baseOf(b)]
+//@ func Run$1
+//@   requires r != nil
+//@   modifies gABool
+//@   ensures forall x int {gABool[x]} :: old(gABool)[x] ==> gABool[x]
+//@ func (*runT).Run
+//@   requires r != nil
+//@   callee f(t): modifies F_*, H_*, fs*, fd*, M*; ensures forall x int {gABool[x]} :: old(gABool)[x] ==> gABool[x]
+//@   modifies F_*, H_*, fs*, fd*, M*, gABool
+//@   ensures old(gABool)[r] ==> gABool[r]
